@@ -74,6 +74,7 @@ class _Clock:
 
 _WHY: List[str] = []  # reason of the last oracle failure (read by classify after a concrete re-run)
 _LASTLOG: List[List[str]] = []  # per-connection DBAPI call logs of the last run (for classify)
+_LASTSITES: List[str] = []  # where the injected BaseExceptions fired in the last run (for classify)
 
 
 def _no(reason: str) -> bool:
@@ -133,6 +134,8 @@ class _Srv(fakedb.FakeServer):
         self.gen: List[int] = []
         self.handed: List[bool] = []  # was ever handed to a holder
         self.close_interrupted: List[bool] = []
+        self.cur_op = "pre-state"  # harness operation in progress (for classify)
+        self.intr_sites: List[str] = []  # "<DBAPI call>-during-<operation>" of every injected BaseException
         self.oplog: List[List[str]] = []  # DBAPI calls seen by each connection ("!" = a fault was injected)
         self.refs: list = []
         self.cur_gen = 0
@@ -153,6 +156,7 @@ class _Srv(fakedb.FakeServer):
                 if kind >= 2:
                     if conn is not None:
                         self.oplog[conn.id][-1] = op + "!!"
+                    self.intr_sites.append(op + "-during-" + self.cur_op)
                     raise _Interrupt("fake: interrupted in " + op)
                 if conn is not None:
                     self.oplog[conn.id][-1] = op + "!"
@@ -332,6 +336,7 @@ def _history(n, prof, pre, pre_ping, recycle, amb, a0, b1, codes, dts, k1, kind1
                 op, w = al[_bpick(codes[k - 1], lo, hi)]
             else:
                 op, w = al[_bpick(codes[k - 1], 0, len(al))]
+            srv.cur_op = OPNAMES[op]
             if op == 0:
                 got = _checkout(eng, srv, clock, holders, soft_inv, stale_before, recycle)
                 if got is False:
@@ -412,10 +417,12 @@ def _history(n, prof, pre, pre_ping, recycle, amb, a0, b1, codes, dts, k1, kind1
             if not _counters_ok(eng, pools, srv, holders):
                 return False
         # every holder releases its connection
+        srv.cur_op = "checkin"
         while holders:
             h = holders.pop()
             res = _run(h.fairy.close)
             h = _abandon(h)
+        srv.cur_op = "close_detached"
         while detached:
             h = detached.pop()
             res = _run(h.fairy.close)
@@ -431,6 +438,7 @@ def _history(n, prof, pre, pre_ping, recycle, amb, a0, b1, codes, dts, k1, kind1
     finally:
         pool_base.time = saved_time
         _LASTLOG[:] = [list(x) for x in srv.oplog]
+        _LASTSITES[:] = list(srv.intr_sites)
         # no symbolic value may be touched by a finalizer running after the path
         srv.k1 = srv.k2 = 0
         srv.kind1 = srv.kind2 = 0
@@ -526,9 +534,9 @@ def h_pool1_long(n: int, prof: int, pre: int, pre_ping: bool, recycle: int, amb:
 # ------------------------------------------------------------------------------------------
 
 META = {
-    "explanation": "Symbolic histories of checkout / checkin / invalidate (hard, soft) / Pool._invalidate / Engine.dispose / clock tick / "
-                   "dropped fairy + gc / server restart on a real Engine+QueuePool(pool_size=1, max_overflow=1, timeout=0) over the fake "
-                   "DBAPI, with the positions and kinds of up to two DBAPI-call faults symbolic, pre_ping and pool_recycle per slice.  "
+    "explanation": "Symbolic histories of checkout / checkin / invalidate (hard, soft) / Pool._invalidate (on a live checkout and on a detached "
+                   "connection that has no pool record) / fairy.detach / Engine.dispose / clock tick / dropped fairy + gc / server restart on a real Engine+QueuePool(pool_size=1, max_overflow=1, timeout=0) over the fake "
+                   "DBAPI, with the positions and kinds (ordinary error / disconnect / BaseException that is not an Exception) of up to two DBAPI-call faults symbolic, pre_ping and pool_recycle per slice.  "
                    "Ledger oracle over every fake connection ever opened.",
     "functions": [
         "pool.base._ConnectionRecord.{checkout,get_connection,invalidate,checkin,_checkin_failed,close,__close,__connect}",
@@ -540,16 +548,17 @@ META = {
     "bounds": {
         "quick": {"pool": "QueuePool(pool_size=1, max_overflow=1, timeout=0), reset_on_return=rollback", "pre_ping": [False, True], "pool_recycle": [-1, RECYCLE],
                   "pre-states": ["cold engine (faults may hit the first-connect initialisation)", "one idle connection", "one idle connection + one checkout", "one checkout, nothing idle"],
-                  "history": "cold: <=2 operations/1 fault, 1 operation/2 faults; warm pre-states: <=2 operations with <=2 faults (all 4 configurations; "
-                             "2 operations/2 faults only from the pre-states with a live checkout), "
-                             "3 operations with <=1 fault for (pre_ping, recycle) in {(True,-1),(False,2)}; every run ends with all holders releasing",
+                  "history": "cold: <=2 operations/1 fault, 1 operation/2 faults; warm pre-states: <=2 operations/1 fault and 1 operation/2 faults (all 4 "
+                             "configurations); from the pre-states with a live checkout and (pre_ping, recycle) in {(True,-1),(False,2)}: 3 operations/1 fault without "
+                             "drop_gc/server_restart, and 2 operations/2 faults (idle+checkout with (True,-1), checkout-only with (False,2)); every run ends with all holders (also detached ones) releasing",
                   "operations": OPNAMES, "fault kinds": ["ordinary DBAPI error", "disconnect (connection dead afterwards)", "a BaseException that is not an Exception (KeyboardInterrupt subclass)"],
                   "fault position": "any DBAPI call after the pre-state (symbolic call number), including the final release of all holders",
-                  "clock": "frozen between operations (amb=0) or +1 per time() call (amb=1: 1 operation, and 2 operations from pre-state idle+checkout); tick amount symbolic in 0..pool_recycle+1"},
-        "thorough": {"history": "cold: <=3 operations/1 fault, <=2 operations/2 faults; warm pre-states: <=3 operations/1 fault and <=2 operations/2 faults for all 4 "
-                                "configurations (amb 0/1 up to 2 operations); 3 operations/2 faults and 4 operations/1 fault from the pre-state idle+checkout, "
-                                "without drop_gc/server_restart, for (pre_ping, recycle) in {(True,-1),(False,2)}; histories of 5 operations are not explored "
-                                "(path count beyond the budget)"},
+                  "clock": "frozen between operations (amb=0) or +1 per time() call (amb=1: single operations); tick amount symbolic in 0..pool_recycle+1"},
+        "thorough": {"history": "cold: <=3 operations/1 fault, <=2 operations/2 faults; warm pre-states: <=2 operations with <=2 faults and 3 operations/1 fault "
+                                "(without drop_gc/server_restart) for all 4 configurations (amb 0/1 for <=2 operations/1 fault); from the pre-state idle+checkout: "
+                                "3 operations/1 fault over the full alphabet for (pre_ping, recycle) in {(True,-1),(False,2)}, and 3 operations/2 faults and "
+                                "4 operations/1 fault without drop_gc/server_restart for (True,-1); histories of 5 operations are not explored (path count "
+                                "beyond the budget)"},
     },
     "outside": ["thread interleavings (see C25)", "Pool.dispose() on a pool with live checkouts (documented unsupported; drives checkedout() to -1) -- only Engine.dispose() "
                 "is in the alphabet and the counters of a pool generation disposed with live checkouts are not examined",
@@ -577,7 +586,7 @@ def _slices(n: int, prof: int, ambs=(0,), pres=(0, 1, 2), cfgs=ALL_CFG) -> List[
             for amb in ambs:
                 for a0 in range(len(_alphabet(1 if pre >= 2 else 0, rec, prof))):
                     # the second operation is only worth partitioning after a checkout (larger alphabet) or in long histories
-                    for b1 in (range(NCHUNK) if (n >= 2 and (a0 == 0 or n >= 4)) else (-1,)):
+                    for b1 in (range(NCHUNK) if (n >= 2 and (a0 == 0 or n >= 3)) else (-1,)):
                         out.append(dict(n=n, prof=prof, pre=pre, pre_ping=pp, recycle=rec, amb=amb, a0=a0, b1=b1))
     return out
 
@@ -590,15 +599,16 @@ def harnesses(tier: str) -> List[Harness]:
         # cold engine (faults may hit the first-connect initialisation): kept small and separate
         hs.append(Harness("pool_cold_1fault", h_pool1, _slices(1, 0, pres=(0,)) + _slices(2, 0, pres=(0,)), budget_s=400))
         hs.append(Harness("pool_cold_2faults", h_pool2, _slices(1, 0, pres=(0,)), budget_s=400))
-        hs.append(Harness("pool_1fault", h_pool1, _slices(1, 0, (0, 1), warm) + _slices(2, 0, (0,), warm) + _slices(2, 0, (1,), (2,))
-                          + _slices(3, 0, (0,), (2,), TWO_CFG) + _slices(3, 1, (0,), (3,), TWO_CFG), budget_s=400))
-        hs.append(Harness("pool_2faults", h_pool2, _slices(1, 0, (0, 1), warm) + _slices(2, 0, (0,), (2, 3)), budget_s=400))
+        hs.append(Harness("pool_1fault", h_pool1, _slices(1, 0, (0, 1), warm) + _slices(2, 0, (0,), (2, 3)) + _slices(2, 0, (0,), (1,), TWO_CFG)
+                          + _slices(3, 1, (0,), (2, 3), TWO_CFG), budget_s=600))
+        hs.append(Harness("pool_2faults", h_pool2, _slices(1, 0, (0,), warm) + _slices(2, 0, (0,), (2,), TWO_CFG[:1]) + _slices(2, 0, (0,), (3,), TWO_CFG[1:]), budget_s=600))
     else:
         hs.append(Harness("pool_cold_1fault", h_pool1, _slices(1, 0, pres=(0,)) + _slices(2, 0, pres=(0,)) + _slices(3, 0, pres=(0,)), budget_s=1500))
         hs.append(Harness("pool_cold_2faults", h_pool2, _slices(1, 0, pres=(0,)) + _slices(2, 0, pres=(0,)), budget_s=1500))
-        hs.append(Harness("pool_1fault", h_pool1, _slices(1, 0, (0, 1), warm) + _slices(2, 0, (0, 1), warm) + _slices(3, 0, (0,), warm), budget_s=1500))
-        hs.append(Harness("pool_2faults", h_pool2, _slices(1, 0, (0, 1), warm) + _slices(2, 0, (0, 1), warm) + _slices(3, 1, (0,), (2,), TWO_CFG), budget_s=1500))
-        hs.append(Harness("pool_1fault_long", h_pool1_long, _slices(4, 1, (0,), (2,), TWO_CFG), budget_s=2500))
+        hs.append(Harness("pool_1fault", h_pool1, _slices(1, 0, (0, 1), warm) + _slices(2, 0, (0, 1), warm) + _slices(3, 1, (0,), warm)
+                          + _slices(3, 0, (0,), (2,), TWO_CFG), budget_s=2500))
+        hs.append(Harness("pool_2faults", h_pool2, _slices(1, 0, (0, 1), warm) + _slices(2, 0, (0,), warm) + _slices(3, 1, (0,), (2,), TWO_CFG[:1]), budget_s=2500))
+        hs.append(Harness("pool_1fault_long", h_pool1_long, _slices(4, 1, (0,), (2,), TWO_CFG[:1]), budget_s=2500))
     return hs
 
 
@@ -660,13 +670,19 @@ def classify(hname, args, rep):
     if args.get("k2"):
         kinds.append("%s@%s" % (kname(args.get("kind2")), args.get("k2")))
     # a failure that needs an injected BaseException (KeyboardInterrupt-like) is its own family of keys
-    if any(k.startswith("BaseException") for k in kinds) and not why.startswith("leak:never-handed-out:connect>rollback!"):
-        bops = sorted(set(o.split("!!")[0] for log in _LASTLOG for o in log if o.endswith("!!")))
-        if "close" in bops or "rollback" in bops:
-            # the interrupt hit a DBAPI call made by the pool's own clean-up code (reset-on-return / close)
-            why = why + ":BaseException-in-cleanup-call"
-        else:
-            why = why + ":BaseException-in-" + ("+".join(bops) or "connect")
+    if _LASTSITES:
+        # normalise the places where the injected BaseException(s) fired: an interrupt inside DBAPI close() (always
+        # called from the pool's own clean-up code) and one inside the reset-on-return of the *gc finalizer* are the
+        # two situations from which the pool is known not to recover; any other site is named in full
+        sites = set()
+        for st in _LASTSITES:
+            if st.startswith("close-during-"):
+                sites.add("close")
+            elif st == "rollback-during-drop_gc":
+                sites.add("rollback-in-gc-finalizer")
+        if not sites:
+            sites = set(_LASTSITES)
+        why = why + ":BaseException-in-" + "+".join(sorted(sites))
     return ("C26:" + why,
             "%s -- pre-state %s, history %s, fault(s) at DBAPI call(s) %s (counted from the end of the pre-state; beyond the last call = no fault), "
             "pre_ping=%s pool_recycle=%s amb=%s"
